@@ -21,6 +21,14 @@ BATTERY = [
      '<![CDATA[cd]]></i><?pi x?><i/></r>', 'xml',
      ['a|i', '[xlink|href]', '[*|href]', 'i:empty', ':lang(de)', 'i', ':root', 'i:-soup-contains(cd)']),
     ('<div><p>a</p>b<!--c--><p></p></div>', 'lxml', ['p:empty', 'div > p', ':root', 'p:first-child', 'div:-soup-contains(b)']),
+    # a default ('') namespace in the caller's map, a None-valued entry, an empty map, no map at all
+    ('<?xml version="1.0"?><feed xmlns="http://www.w3.org/2005/Atom" xmlns:media="urn:media"><entry><title id="t1">a</title>'
+     '<media:title id="t2">b</media:title></entry><x xmlns=""><title id="t3">c</title></x></feed>', 'xml',
+     ['title', 'm|title', '*|title', '|title', 'entry > title', ':not(title)', 'entry :is(title, m|title)'],
+     {'': 'http://www.w3.org/2005/Atom', 'm': 'urn:media'}),
+    ('<?xml version="1.0"?><feed xmlns="http://www.w3.org/2005/Atom"><title id="t1">a</title><x xmlns=""><title id="t3">c</title></x></feed>',
+     'xml', ['title', '*|title', '|title', '[id]', '[|id]'], {}),
+    ('<?xml version="1.0"?><r xmlns:a="urn:a"><a:i/><i/></r>', 'xml', ['i', '*|i', '|i', ':root > i'], None),
 ]
 NSMAP = {'a': 'urn:a', 'xlink': 'http://www.w3.org/1999/xlink', 'svg': 'http://www.w3.org/2000/svg'}
 
@@ -37,15 +45,17 @@ import bs4, soupsieve
 with open(sys.argv[2]) as _f:
     battery = json.load(_f)
 vals = []
-for markup, parser, sels in battery['cases']:
+for case in battery['cases']:
+    markup, parser, sels = case[:3]
+    ns = case[3] if len(case) > 3 else battery['ns']
     soup = bs4.BeautifulSoup(markup, parser)
     for s in sels:
         try:
-            a = [str(e)[:60] for e in soup.select(s, namespaces=battery['ns'])]
+            a = [str(e)[:60] for e in soup.select(s, namespaces=ns)]
         except Exception as ex:
             a = 'EXC ' + type(ex).__name__
         try:
-            b = [str(e)[:60] for e in soupsieve.select(s, soup, namespaces=battery['ns'])]
+            b = [str(e)[:60] for e in soupsieve.select(s, soup, namespaces=ns)]
         except Exception as ex:
             b = 'EXC ' + type(ex).__name__
         vals.append([a, b])
@@ -106,19 +116,19 @@ def run(tier, seed):
             ref = (p, res['results'])
         elif res['results'] != ref[1]:
             i = next(i for i, (x, y) in enumerate(zip(res['results'], ref[1])) if x != y)
-            flat = [(m, pr, s) for m, pr, ss in BATTERY for s in ss]
+            flat = [(c_[0], c_[1], s) for c_ in BATTERY for s in c_[2]]
             ck.violation(f'results depend on the import order: "{label}" vs "{"; ".join(ref[0])}" differ on {flat[i][2]!r}',
                          {'program': p, 'reference_program': ref[0], 'selector': flat[i][2], 'markup': flat[i][0], 'parser': flat[i][1],
                           'this': res['results'][i], 'reference': ref[1][i]})
-    ck.sample({'program': progs[0], 'cases': sum(len(s) for _, _, s in BATTERY)})
+    ck.sample({'program': progs[0], 'cases': sum(len(c_[2]) for c_ in BATTERY)})
     import shutil
     shutil.rmtree(tmp, ignore_errors=True)
     return ck.finish(
         level='proof',
         rule=f'{len(progs)} import programs (every form alone, every ordered pair of the main forms; thorough: all pairs and triples of '
              'the first four), each in a fresh interpreter: must succeed silently (stdout, stderr, warnings with -W default), '
-             'bs4.css.soupsieve must be the real module, and a battery of 36 (markup, parser, selector) cases - comments, doctype, '
-             'CDATA, namespaced attributes, state pseudo-classes - must give identical results for BeautifulSoup.select and '
+             'bs4.css.soupsieve must be the real module, and a battery of 52 (markup, parser, selector, namespace map) cases - comments, doctype, '
+             'CDATA, namespaced attributes, default / empty / absent namespace maps, state pseudo-classes - must give identical results for BeautifulSoup.select and '
              'soupsieve.select and across all import orders. The Coq import machine covers all 1463 programs of length <= 3.',
         assumptions=['the import machine abstracts Python\'s import protocol (partial modules, from-import fallback to submodules, '
                      'try/except ImportError); stdlib and third-party parsers are assumed importable',
